@@ -161,8 +161,7 @@ func init() {
 	reg("(reflect.Value).Type", func(ex *Exec, st *State, instr ssa.Instruction, args []Value) Value {
 		v := ex.rv(args[0])
 		if v.T == nil {
-			ex.oblige(st, "panic", "panic@reflect.Type-of-zero-Value", False, instr.Pos(), "reflect: call of Type on zero Value")
-			ex.unsupported("Type of zero reflect.Value")
+			ex.libPanic(st, instr, "panic@reflect.Type-of-zero-Value", "reflect: call of Type on zero Value")
 		}
 		return &VRType{T: v.T}
 	})
@@ -186,8 +185,7 @@ func init() {
 			iv := ex.rvGet(st, v, instr).(*VIface)
 			return ex.reflectValueOf(st, iv, instr)
 		}
-		ex.oblige(st, "panic", "panic@reflect.Elem", False, instr.Pos(), "reflect: call of Elem on a non-pointer Value")
-		ex.unsupported("reflect.Value.Elem on %s", v.T)
+		ex.libPanic(st, instr, "panic@reflect.Elem", "reflect: call of Elem on a non-pointer Value")
 		return nil
 	})
 	reg("reflect.Indirect", func(ex *Exec, st *State, instr ssa.Instruction, args []Value) Value {
@@ -204,8 +202,7 @@ func init() {
 		v := ex.rv(args[0])
 		s, ok := v.T.Underlying().(*types.Struct)
 		if !ok {
-			ex.oblige(st, "panic", "panic@reflect.NumField", False, instr.Pos(), "reflect: NumField of non-struct")
-			ex.unsupported("NumField of %s", v.T)
+			ex.libPanic(st, instr, "panic@reflect.NumField", "reflect: NumField of non-struct")
 		}
 		return IntLit(int64(s.NumFields()))
 	})
@@ -217,8 +214,7 @@ func init() {
 			ex.unsupported("reflect.Value.Field with symbolic index or non-struct")
 		}
 		if i < 0 || int(i) >= s.NumFields() {
-			ex.oblige(st, "panic", "panic@reflect.Field", False, instr.Pos(), "reflect: Field index out of range")
-			ex.unsupported("Field index out of range")
+			ex.libPanic(st, instr, "panic@reflect.Field", "reflect: Field index out of range")
 		}
 		_, _, model, _ := ex.structLayout(v.T)
 		if model != nil {
@@ -240,8 +236,7 @@ func init() {
 	reg("(reflect.Value).Interface", func(ex *Exec, st *State, instr ssa.Instruction, args []Value) Value {
 		v := ex.rv(args[0])
 		if v.T == nil {
-			ex.oblige(st, "panic", "panic@reflect.Interface", False, instr.Pos(), "reflect: Interface of zero Value")
-			ex.unsupported("Interface of zero Value")
+			ex.libPanic(st, instr, "panic@reflect.Interface", "reflect: Interface of zero Value")
 		}
 		val := ex.rvGet(st, v, instr)
 		if _, ok := v.T.Underlying().(*types.Interface); ok {
@@ -252,8 +247,7 @@ func init() {
 	reg("(reflect.Value).Addr", func(ex *Exec, st *State, instr ssa.Instruction, args []Value) Value {
 		v := ex.rv(args[0])
 		if v.Ptr == nil {
-			ex.oblige(st, "panic", "panic@reflect.Addr", False, instr.Pos(), "reflect.Value.Addr of unaddressable value")
-			ex.unsupported("Addr of unaddressable value")
+			ex.libPanic(st, instr, "panic@reflect.Addr", "reflect.Value.Addr of unaddressable value")
 		}
 		return &VReflect{T: types.NewPointer(v.T), Val: v.Ptr}
 	})
@@ -275,24 +269,21 @@ func init() {
 		case *VFunc:
 			return x.Nil
 		}
-		ex.oblige(st, "panic", "panic@reflect.IsNil", False, instr.Pos(), "reflect: IsNil of a non-nillable kind")
-		ex.unsupported("IsNil of %s", v.T)
+		ex.libPanic(st, instr, "panic@reflect.IsNil", "reflect: IsNil of a non-nillable kind")
 		return nil
 	})
 	reg("(reflect.Value).Uint", func(ex *Exec, st *State, instr ssa.Instruction, args []Value) Value {
 		v := ex.rv(args[0])
 		ii, ok := intTypeInfo(v.T)
 		if !ok || ii.signed {
-			ex.oblige(st, "panic", "panic@reflect.Uint", False, instr.Pos(), "reflect: Uint of a non-unsigned kind")
-			ex.unsupported("Uint of %s", v.T)
+			ex.libPanic(st, instr, "panic@reflect.Uint", "reflect: Uint of a non-unsigned kind")
 		}
 		return ex.rvGet(st, v, instr)
 	})
 	reg("(reflect.Value).Bool", func(ex *Exec, st *State, instr ssa.Instruction, args []Value) Value {
 		v := ex.rv(args[0])
 		if !isBool(v.T) {
-			ex.oblige(st, "panic", "panic@reflect.Bool", False, instr.Pos(), "reflect: Bool of a non-bool kind")
-			ex.unsupported("Bool of %s", v.T)
+			ex.libPanic(st, instr, "panic@reflect.Bool", "reflect: Bool of a non-bool kind")
 		}
 		return ex.rvGet(st, v, instr)
 	})
@@ -305,26 +296,22 @@ func init() {
 				return &sl
 			}
 		}
-		ex.oblige(st, "panic", "panic@reflect.Bytes", False, instr.Pos(), "reflect: Bytes of a non-byte-slice")
-		ex.unsupported("Bytes of %s", v.T)
+		ex.libPanic(st, instr, "panic@reflect.Bytes", "reflect: Bytes of a non-byte-slice")
 		return nil
 	})
 	setCheck := func(ex *Exec, st *State, instr ssa.Instruction, v *VReflect, what string) {
 		if !v.CanSet || v.Ptr == nil {
-			ex.oblige(st, "panic", "panic@reflect."+what, False, instr.Pos(), "reflect: "+what+" using unaddressable/unexported value")
-			ex.unsupported(what + " on a value that cannot be set")
+			ex.libPanic(st, instr, "panic@reflect."+what, "reflect: "+what+" using unaddressable/unexported value")
 		}
 	}
 	reg("(reflect.Value).Set", func(ex *Exec, st *State, instr ssa.Instruction, args []Value) Value {
 		v, x := ex.rv(args[0]), ex.rv(args[1])
 		setCheck(ex, st, instr, v, "Set")
 		if x.T == nil {
-			ex.oblige(st, "panic", "panic@reflect.Set-zero", False, instr.Pos(), "reflect: Set with zero Value")
-			ex.unsupported("Set with zero Value")
+			ex.libPanic(st, instr, "panic@reflect.Set-zero", "reflect: Set with zero Value")
 		}
 		if !types.AssignableTo(x.T, v.T) {
-			ex.oblige(st, "panic", "panic@reflect.Set-type", False, instr.Pos(), "reflect.Set: value of type "+x.T.String()+" is not assignable to type "+v.T.String())
-			ex.unsupported("reflect.Set type mismatch %s <- %s", v.T, x.T)
+			ex.libPanic(st, instr, "panic@reflect.Set-type", "reflect.Set: value of type "+x.T.String()+" is not assignable to type "+v.T.String())
 		}
 		val := ex.rvGet(st, x, instr)
 		if _, ok := v.T.Underlying().(*types.Interface); ok {
@@ -340,8 +327,7 @@ func init() {
 		setCheck(ex, st, instr, v, "SetUint")
 		ii, ok := intTypeInfo(v.T)
 		if !ok || ii.signed {
-			ex.oblige(st, "panic", "panic@reflect.SetUint", False, instr.Pos(), "reflect: SetUint of a non-unsigned kind")
-			ex.unsupported("SetUint of %s", v.T)
+			ex.libPanic(st, instr, "panic@reflect.SetUint", "reflect: SetUint of a non-unsigned kind")
 		}
 		ex.store(st, v.Ptr, wrapInt(v.T, args[1].(*Term)), instr)
 		return &VTuple{}
@@ -350,8 +336,7 @@ func init() {
 		v := ex.rv(args[0])
 		setCheck(ex, st, instr, v, "SetBool")
 		if !isBool(v.T) {
-			ex.oblige(st, "panic", "panic@reflect.SetBool", False, instr.Pos(), "reflect: SetBool of a non-bool kind")
-			ex.unsupported("SetBool of %s", v.T)
+			ex.libPanic(st, instr, "panic@reflect.SetBool", "reflect: SetBool of a non-bool kind")
 		}
 		ex.store(st, v.Ptr, args[1], instr)
 		return &VTuple{}
@@ -366,8 +351,7 @@ func init() {
 			}
 		}
 		if !ok {
-			ex.oblige(st, "panic", "panic@reflect.SetBytes", False, instr.Pos(), "reflect: SetBytes of a non-byte-slice")
-			ex.unsupported("SetBytes of %s", v.T)
+			ex.libPanic(st, instr, "panic@reflect.SetBytes", "reflect: SetBytes of a non-byte-slice")
 		}
 		sl := *(args[1].(*VSlice))
 		sl.Elem = s.Elem()
@@ -404,8 +388,7 @@ func init() {
 	reg("(reflect.Value).Call", func(ex *Exec, st *State, instr ssa.Instruction, args []Value) Value {
 		v := ex.rv(args[0])
 		if v.T == nil || v.Method == "" {
-			ex.oblige(st, "panic", "panic@reflect.Call", False, instr.Pos(), "reflect: call of Call on zero Value")
-			ex.unsupported("Call on zero Value")
+			ex.libPanic(st, instr, "panic@reflect.Call", "reflect: call of Call on zero Value")
 		}
 		in := args[1].(*VSlice)
 		if n, ok := in.Len.Int64(); !ok || n != 0 {
@@ -466,8 +449,7 @@ func (ex *Exec) rtypeMethod(st *State, instr ssa.Instruction, rt *VRType, name s
 		case *types.Map:
 			return &VRType{T: u.Elem()}
 		}
-		ex.oblige(st, "panic", "panic@reflect.Type.Elem", False, instr.Pos(), "reflect: Elem of invalid type")
-		ex.unsupported("Type.Elem of %s", rt.T)
+		ex.libPanic(st, instr, "panic@reflect.Type.Elem", "reflect: Elem of invalid type")
 	case "NumField":
 		if s, ok := rt.T.Underlying().(*types.Struct); ok {
 			return IntLit(int64(s.NumFields()))
